@@ -201,3 +201,129 @@ func c03DropAndRepropose(w *core.WorkerCtx) {
 		world.Propose(n, &mt2, "merge2")
 	}
 }
+
+// concurrentDupChild: copies of one gossiped vertex V arrive at the same moment (all pass the look-ups made before the
+// ledger lock) while a child of V is delivered as soon as V is visible, and the same transaction is proposed twice at
+// once. The copies that lose are refused inside the locked section; a refused copy must take nothing with it: V, its
+// edges and its index entry stay, and the child keeps a live parent. Judged by the snapshot oracles (C09 structure,
+// C03 uniqueness/index) after every block.
+func concurrentDupChild(w *core.WorkerCtx, report []string) {
+	rng := core.Rand(w.Seed, "dupchild", w.Batch)
+	desc := fmt.Sprintf("concurrent duplicates with a child seed=%d batch=%d", w.Seed, w.Batch)
+	w.Mark("%s", desc)
+	world := ledger.NewWorld(rng, w.R, report, allSnapOracles, desc)
+	world.SlowVerify = 400 * time.Microsecond
+	defer world.Close()
+	if _, err := ledger.Setup(world, ledger.Profile{Nodes: 1, Users: 4, SupplyClass: 0, Delivery: "lockstep"}); err != nil {
+		w.R.Inconc("setup failed: " + err.Error())
+		return
+	}
+	n := world.Nodes[0]
+	u := world.Users
+	for i := 1; i < len(u); i++ {
+		t := world.NewTrx(u[0], u[i].Addr, spice.Melange{Currency: 1000}, nil)
+		world.Propose(n, &t, "fund")
+	}
+	rounds := w.Pick(40, 200)
+	attached, refused := 0, 0
+	for m := 0; m < rounds; m++ {
+		snap := n.Prev
+		var tip ledger.H
+		var wgt uint64
+		for h := range snap.Leaves {
+			if v, ok := snap.Vertex(h); ok && v.Weight >= wgt {
+				tip, wgt = h, v.Weight
+			}
+		}
+		if wgt == 0 {
+			break
+		}
+		from := u[1+m%3]
+		var data []byte
+		amt := spice.Melange{SupplementaryCurrency: uint64(1 + rng.Intn(50))}
+		if m%3 == 0 {
+			data, amt = []byte(fmt.Sprintf("contract %d", m)), spice.Melange{}
+		}
+		vt := world.NewTrx(from, u[1+(m+1)%3].Addr, amt, data)
+		v := ledger.ForgeVertex(world.Sealers[0], vt, tip, tip, wgt+1, world.Now())
+		ct := world.NewTrx(u[0], u[1+m%3].Addr, spice.Melange{SupplementaryCurrency: 1}, nil)
+		c := ledger.ForgeVertex(world.Sealers[1], ct, v.Hash, v.Hash, wgt+2, world.Now())
+		world.Hist.Add(&v)
+		world.Hist.Add(&c)
+		k := 2 + rng.Intn(4)
+		errs := make([]error, k)
+		var cerr error = errors.New("not offered")
+		var fns []func()
+		for i := 0; i < k; i++ {
+			i := i
+			fns = append(fns, func() { errs[i] = n.Book.AddLeaf(world.Ctx, ledger.CloneVertex(&v)) })
+		}
+		fns = append(fns, func() {
+			for try := 0; try < 400; try++ {
+				if _, err := n.Book.ReadVertex(world.Ctx, v.Hash); err == nil {
+					cerr = n.Book.AddLeaf(world.Ctx, ledger.CloneVertex(&c))
+					return
+				}
+				time.Sleep(50 * time.Microsecond)
+			}
+		})
+		// the same transaction proposed twice at the same moment
+		pt := world.NewTrx(u[1+(m+2)%3], u[0].Addr, spice.Melange{SupplementaryCurrency: 2}, nil)
+		perrs := make([]error, 2)
+		for i := 0; i < 2; i++ {
+			i := i
+			fns = append(fns, func() {
+				t := pt
+				pv, err := n.Book.CreateLeaf(world.Ctx, &t)
+				perrs[i] = err
+				if err == nil {
+					world.Hist.Add(&pv)
+				}
+			})
+		}
+		world.Logf("round %d: %d copies of vertex %s on tip %s, child %s, transaction %s proposed twice", m, k, ledger.Hex(v.Hash), ledger.Hex(tip), ledger.Hex(c.Hash), ledger.Hex(pt.Hash))
+		world.Concurrent(n, fns)
+		oks := 0
+		for _, e := range errs {
+			if e == nil {
+				oks++
+			} else {
+				refused++
+			}
+		}
+		if cerr == nil {
+			attached++
+		}
+		if ledger.IsParked(cerr) {
+			n.Orphans[c.Hash] = true
+		}
+		world.Logf("  results: %d of %d copies admitted, child => %v, proposals => %v / %v", oks, k, cerr, perrs[0], perrs[1])
+		for _, p := range report {
+			world.EvalFor(p, 1)
+			world.NontrivFor(p, fmt.Sprintf("dup-child/k%d/admitted%d/child-attached=%v/proposals-ok=%d", k, min(oks, 2), cerr == nil, b2i(perrs[0] == nil)+b2i(perrs[1] == nil)))
+		}
+		if oks > 1 {
+			world.Violate("C03", "vertex-admitted-twice", fmt.Sprintf("%d of %d concurrent deliveries of vertex %s reported success", oks, k, ledger.Hex(v.Hash)))
+		}
+		if perrs[0] == nil && perrs[1] == nil {
+			world.Violate("C03", "transaction-proposed-twice-accepted-twice", fmt.Sprintf("both concurrent proposals of transaction %s reported success", ledger.Hex(pt.Hash)))
+		}
+		for i := 0; i < 3; i++ {
+			world.Retry(n)
+		}
+		mt := world.NewTrx(u[0], u[1].Addr, spice.Melange{}, []byte("merge"))
+		world.Propose(n, &mt, "merge")
+		mt2 := world.NewTrx(u[0], u[2].Addr, spice.Melange{}, []byte("merge"))
+		world.Propose(n, &mt2, "merge")
+	}
+	w.R.Count("dup_child_rounds", rounds)
+	w.R.Count("dup_child_children_attached", attached)
+	w.R.Count("dup_child_copies_refused", refused)
+}
+
+func b2i(b bool) int {
+	if b {
+		return 1
+	}
+	return 0
+}
